@@ -81,6 +81,12 @@ def generate(seed: int, tier: str, index: int) -> dict:
             script.append({"op": "exercise"})
         spec["actors"] = [{"id": "storage", "kind": "storage", "role": "media", "prng": rng.getrandbits(32),
                            "script": script}]
+    elif (index // 5) % 3 == 2:
+        # second stage: legitimate management operations served concurrently (pre-emption inside requests)
+        from . import c17
+        spec["family"] = "race"
+        spec["world"] = {"variant": "full"}
+        spec["actors"] = c17.generate_burst(seed, tier, index)["actors"]
     else:
         spec["world"] = {"variant": "full"}
         spec["actors"] = [gen_inject(rng) if rng.random() < 0.7 else gen_inject_time(rng, spec["t0_us"])]
@@ -304,6 +310,31 @@ class ResponseOracle:
             sim.violate("unhandled", f"{endpoint}/{exc_site(resp.exc)}",
                         f"{resp.status} for {msg.method} {msg.url[:300]}: "
                         f"{type(resp.exc).__name__ if resp.exc else 'no exception captured'}: {str(resp.exc)[:200]}")
+
+
+class RaceOracle:
+    """No request answers 5xx - also when it is served together with others.  A statement that gave up waiting for
+    SQLite's write lock (every live request was waiting) is the one failure a busy timeout legitimately produces and
+    is counted, not judged."""
+
+    def __init__(self, sim: Sim) -> None:
+        self.sim = sim
+
+    def on_burst(self, actor, st: dict, reqs: list[dict], outcome: dict) -> None:
+        sim = self.sim
+        if outcome.get("interleaved"):
+            sim.world.probe("c16.burst-interleaved")
+        for i, (req, resp) in enumerate(zip(reqs, outcome["results"])):
+            sim.check("c16-race-response")
+            if i in outcome["aborted"]:
+                sim.world.probe("c16.race-lock-timeout")
+                continue
+            if resp.status >= 500 or resp.exc is not None:
+                others = "+".join(sorted(r["recipe"]["op"] for r in reqs if r is not req))
+                sim.violate("race-unhandled", f"{req['recipe']['op']}/{exc_site(resp.exc)}",
+                            f"{resp.status} for {req['method']} {req['url'][:160]} served concurrently with {others}: "
+                            f"{type(resp.exc).__name__ if resp.exc else ''}: {str(resp.exc)[:200]}; schedule "
+                            f"{[(t, l) for t, l in outcome['schedule']][:50]}")
 
 
 def _asked_for(url: str, status: int) -> bool:
@@ -610,15 +641,26 @@ def execute(spec: dict) -> dict:
             con.commit()
             con.close()
         world.step_budget = STEP_BUDGET
+        if spec["family"] == "race":
+            world.stop()
+            world.preemptive = True
+            world.step_budget = 0        # the budget counter is per interpreter, not per thread
+            world.start()
         sim = Sim(world, spec["sched_seed"])
         oracle = ResponseOracle(sim)
         sim.after_delivery = oracle.after_delivery
         actors = []
         for a in spec["actors"]:
+            if a["kind"] == "burster":
+                from ..actors.burster import Burster
+                b = Burster(sim, a)
+                b.observers = [RaceOracle(sim)]
+                actors.append(b)
+                continue
             cls = {"hostile": Hostile, "storage": Storage, "inject": Injector, "inject_time": TimeInjector}[a["kind"]]
             actors.append(cls(sim, a))
         sim.run(actors, max_steps=6_000_000)
-        return base.outcome(ID, spec, sim, world, nontrivial=bool(sim.checks.get("c16-response", 0) >= 20),
+        return base.outcome(ID, spec, sim, world, nontrivial=bool(sim.checks.get("c16-response", 0) >= 20 or sim.checks.get("c16-race-response")),
                             extra={"sim_seconds": (simclock.CLOCK.us - spec["t0_us"]) / 1e6,
                                    "counters": {f"family.{spec['family']}": 1,
                                                 "catalogue_items": getattr(sim, "catalogue_size", 0)}})
